@@ -218,4 +218,23 @@ example (action goto : Table) :
    C15_reject_brace _ _ _ (by decide +kernel), C15_reject_paren _ _ _ (by decide +kernel),
    C15_reject_istr _ _ _ (by decide +kernel), C15_reject_estr _ _ _ (by decide +kernel)⟩
 
+/-! ### the driver is not vacuous
+
+  `LR.decode` goes through `String.splitOn`/`String.toNat?`, which the kernel does not reduce in this
+  Lean version, and a list-based re-decoding of the 50 kB of regenerated tables did not finish under
+  `decide +kernel` within ten minutes; so acceptance/rejection with the REAL tables is exercised by the
+  test harness (`#eval`: `okBlock` ↦ `accept`, `openBlock` ↦ `error 6`, `strayClose` ↦ `error 7`,
+  `missingOpen` ↦ `error 1`, `openParen` ↦ `error 7`), not stated here. A hand-made table for the
+  grammar `S → a` shows the driver itself accepting and rejecting. -/
+
+def toyProds : List Rule := [⟨0, [.t 1]⟩]
+def toyAction : Table := [(0, [(1, 1)]), (1, [(0, -1)]), (2, [(0, 0)])]
+def toyGoto : Table := [(0, [(0, 2)])]
+
+example : recognise toyProds toyAction toyGoto 0 0 [1] = .accept := by decide +kernel
+example : recognise toyProds toyAction toyGoto 0 0 [1, 1] = .error 1 := by decide +kernel
+example : recognise toyProds toyAction toyGoto 0 0 [] = .error 0 := by decide +kernel
+/-- wrong tables (reduce by `S → a` on an empty stack) are caught by the validation: `stuck` -/
+example : recognise toyProds [(0, [(0, -1)])] toyGoto 0 0 [] = .stuck := by decide +kernel
+
 end Lessm.LR
